@@ -31,13 +31,15 @@ import time
 
 from harness import lib_c14 as lib14
 from harness import lib_c14_hist as hist
+from harness import lib_c14_multi as multi
 from harness import lib_c17 as lib
 from harness.core import InfraError, err_kind, jdump
 from harness.props import c17
 
 PID = 'C14'
 TITLE = 'Remote evaluation is observationally the same as local evaluation'
-LEAN_MODULES = ['MlModel.Properties.C14', 'MlModel.Properties.C14State', 'MlModel.Witness.C14']
+LEAN_MODULES = ['MlModel.Properties.C14', 'MlModel.Properties.C14State', 'MlModel.Properties.C14Opts',
+                'MlModel.Properties.C14Multi', 'MlModel.Witness.C14']
 TRUSTED = [
     'the real DeepMind courier transport is absent: harness/fakecourier supplies the assumed contract (a call runs '
     'its handler at most once and completes with the handler\'s value, or fails with a status whose code is 4 for '
@@ -79,7 +81,16 @@ RULE = ('sequential cases (fake courier inline, virtual clock): 3-14 ops drawn f
         'handle to the same object, live generators and tuple iterators through RemoteObject.__iter__ / RemoteIterator, whole-object '
         'copies, bound methods, raising members, and (half of the cases) explicit cache_result_ / lazy_result_ flags on any link + '
         'clear_cache; three passes: remote (client + server), the same lazy expressions by lazy_fns.maybe_make in process, ordinary '
-        'Python on ordinary objects (+ textbook LRU for cache_result links); model = Model/RemoteState.lean incl. cache_info.')
+        'Python on ordinary objects (+ textbook LRU for cache_result links); model = Model/RemoteState.lean incl. cache_info.  '
+        'OPTIONS: the constructor options of CourierClient / CourierServer / PrefetchedCourierServer are read off the working '
+        'tree with inspect at run time; every option is sampled at its default and at non-default values (enforced per option); '
+        'half of the seq / hist / arr / shared / conc cases run with sampled client and server options.  multi cases: 1-3 clients '
+        '(own options each) on one server (own options), 6-17 requests: the hist ops, generators with 0-6 elements ending '
+        'normally / with a return value / with a failure iterated through RemoteIterator past their end (small-exhaustive: '
+        'iterate_batch_size 2,3,4,7 x 0-6 elements x three ends), handles re-bound to another client (RemoteObject.new with a '
+        'client / a ClientConfig), the courier methods clear_cache / cache_info / heartbeat by any client at any position, a '
+        'shutdown by a third party or by client.shutdown(); three passes (remote, maybe_make in process, ordinary Python + '
+        'textbook LRU); model = Model/RemoteMulti.lean.')
 
 HB = 100.0          # heartbeat threshold of the client (virtual seconds)
 KINDS = ['ValueError', 'TypeError', 'KeyError', 'IndexError', 'RuntimeError', 'AssertionError',
@@ -442,35 +453,78 @@ def fixed_span_arr_cases():
   return out
 
 
+_SIG = {}
+
+
+def _sig():
+  """constructor options read off the working tree (inspect), once per process"""
+  if not _SIG:
+    E = _setup()
+    _SIG.update(multi.signatures(E['cu'], E['cs']))
+  return _SIG
+
+
+def with_options(rng, case, p=0.5):
+  """the same case run by a client / on a server built with sampled constructor options"""
+  if rng.random() < p:
+    sig = _sig()
+    case = dict(case, client_opts=dict(multi.sample_opts(rng, sig, 'CourierClient'), heartbeat_threshold_secs=HB))
+    cls = rng.choice(['CourierServer', 'PrefetchedCourierServer'])
+    if any(op.get('op') == 'init_iterator' for t in case.get('threads', []) for op in t):
+      cls = 'PrefetchedCourierServer'
+    case['server'] = {'cls': cls, 'opts': multi.sample_opts(rng, sig, cls)}
+  return case
+
+
 def gen_cases(ctx):
+  for c in _gen_cases(ctx):
+    yield c
+
+
+def multi_cases(ctx):
+  rng = ctx.rng
+  sig = _sig()
+  yield from multi.fixed_multi_cases(sig)
+  fins = ({'stop': []}, {'stop': [{'i': 77}]}, {'fail': {'kind': 'ValueError', 'msg': 'boom'}})
+  for b in (2, 3, 4, 7):
+    for n in range(0, 7):
+      for fin in fins:
+        yield multi.gen_multi_case(rng, sig, n_ops=rng.randrange(4, 10), force={'batch': b, 'n': n, 'fin': fin})
+  for i in range(350 if ctx.quick else 5000):
+    yield multi.gen_multi_case(rng, sig)
+
+
+def _gen_cases(ctx):
   rng = ctx.rng
   yield from ctx.corpus()
   yield from fixed_cases()
+  yield from multi_cases(ctx)
   n_seq = 3500 if ctx.quick else 40000
   for i in range(n_seq):
-    yield {'kind': 'seq', 'fn_max': rng.choice([128, 128, 0, 1, 2]),
-           'threads': [gen_thread(rng, rng.randrange(3, 15))]}
+    yield with_options(rng, {'kind': 'seq', 'fn_max': rng.choice([128, 128, 0, 1, 2]),
+                             'threads': [gen_thread(rng, rng.randrange(3, 15))]})
   for i in range(100 if ctx.quick else 1500):
     n = rng.randrange(0, 9)
-    yield {'kind': 'shared', 'fn_max': 128, 'source': rng.choice(['tuple', 'queue']),
-           'items': list(range(100, 100 + n)), 'n_threads': rng.randrange(2, 4), 'per_thread': rng.randrange(1, 6)}
+    yield with_options(rng, {'kind': 'shared', 'fn_max': 128, 'source': rng.choice(['tuple', 'queue']),
+                             'items': list(range(100, 100 + n)), 'n_threads': rng.randrange(2, 4),
+                             'per_thread': rng.randrange(1, 6)})
   yield from fixed_span_arr_cases()
   for i in range(60 if ctx.quick else 800):
     yield gen_span_case(rng)
   for i in range(150 if ctx.quick else 2000):
-    yield gen_arr_case(rng)
+    yield with_options(rng, gen_arr_case(rng))
   for name, ops, flags in hist.fixed_hist_ops():
     for fn_max in ((128, 0, 1) if flags else (128,)):
       yield {'kind': 'hist', 'fn_max': fn_max, 'ops': ops}
   for i in range(700 if ctx.quick else 8000):
     flags = i % 2 == 1
-    yield {'kind': 'hist', 'fn_max': rng.choice([128, 128, 0, 1, 2]) if flags else 128,
-           'ops': hist.gen_hist_ops(rng, rng.randrange(4, 17), flags=flags)}
+    yield with_options(rng, {'kind': 'hist', 'fn_max': rng.choice([128, 128, 0, 1, 2]) if flags else 128,
+                             'ops': hist.gen_hist_ops(rng, rng.randrange(4, 17), flags=flags)})
   n_conc = 250 if ctx.quick else 3000
   for i in range(n_conc):
-    yield {'kind': 'conc', 'fn_max': 128,
-           'threads': [gen_thread(rng, rng.randrange(3, 10), pure=True, faults=False, shutdown_ok=False)
-                       for _ in range(rng.randrange(1, 4))]}
+    yield with_options(rng, {'kind': 'conc', 'fn_max': 128,
+                             'threads': [gen_thread(rng, rng.randrange(3, 10), pure=True, faults=False, shutdown_ok=False)
+                                         for _ in range(rng.randrange(1, 4))]})
 
 
 # ----------------------------------------------------------------------------- real code
@@ -621,14 +675,15 @@ class Remote(Side):
     self.name = f'c14_{os.getpid()}_{next(_N)}'
     sig = E['signal']
     saved = [(s, sig.getsignal(s)) for s in (sig.SIGINT, sig.SIGTERM, sig.SIGABRT)]
+    srv = (case or {}).get('server') or {'cls': 'PrefetchedCourierServer', 'opts': {}}
     try:
-      self.server = cs.PrefetchedCourierServer(self.name)
+      self.server = getattr(cs, srv['cls'])(self.name, **srv['opts'])
     finally:
       if threading.current_thread() is threading.main_thread():
         for s, h in saved:
           sig.signal(s, h)
     self.server.build_server().Start()          # serve, without the thread that tears the transport down
-    self.client = cu.CourierClient(self.name, heartbeat_threshold_secs=HB)
+    self.client = cu.CourierClient(self.name, **dict({'heartbeat_threshold_secs': HB}, **(case or {}).get('client_opts', {})))
     self.plan = {'fate': 'ok', 'advance': 0.0}
     fc.set_fault_plan(self.name, self._fate)
     self.bg_log0, self.bg_n = None, 0
@@ -1232,7 +1287,42 @@ def oracle_hist(case, obs):
           hist.first_difference(ops, obs['hist'], obs['hist_twin'], 'the client', 'the same history on a local object'))
 
 
+def run_multi(case):
+  """Several clients (own options) on one server (own options): through the clients, by maybe_make in process, on
+  ordinary objects."""
+  E = _setup()
+  lf, cu = E['lf'], E['cu']
+  fn_cache = lf.LazyFn.result_.cache_info.__self__
+  saved = fn_cache.maxsize
+  out = {'remote': [], 'local': []}
+  try:
+    lf.clear_cache(); lf.clear_object()
+    fn_cache.maxsize = case['fn_max']
+    rem = Remote(case, 'inline')
+    try:
+      try:
+        clients = [cu.CourierClient(rem.name, **o) for o in case['clients']]
+        out['multi'] = multi.renumber(multi.run_remote(case, rem, clients, E, c14_err))
+      except Exception as e:  # pylint: disable=broad-except
+        out['multi'] = [{'err': 'crash', 'msg': f'{type(e).__name__}: {e}'[:160]}]
+    finally:
+      rem.close()
+    lf.clear_cache(); lf.clear_object()
+    out['multi_local'] = multi.renumber(multi.run_lazy_local(case, E, c14_err))
+    out['multi_twin'] = multi.renumber(multi.run_twin(case, c14_err))
+  finally:
+    fn_cache.maxsize = saved
+    lf.clear_cache(); lf.clear_object()
+  return out
+
+
+def oracle_multi(case, obs):
+  return multi.oracle(case, _sig(), obs)
+
+
 def run_impl(case):
+  if case['kind'] == 'multi':
+    return run_multi(case)
   if case['kind'] == 'hist':
     return run_hist(case)
   if case['kind'] == 'shared':
@@ -1302,6 +1392,8 @@ def run_impl(case):
 # ----------------------------------------------------------------------------- model
 
 def model_requests(case):
+  if case['kind'] == 'multi':
+    return [multi.model_request(case, _sig()), multi.model_request(case, _sig(), local=True)]
   if case['kind'] == 'hist':
     return [hist.model_request(case), hist.model_request(case, local=True)]
   if case['kind'] == 'span':
@@ -1318,6 +1410,8 @@ def model_requests(case):
 
 
 def model_obs(case, resps):
+  if case['kind'] == 'multi':
+    return {'multi': multi.renumber(resps[0]['obs']), 'multi_twin': multi.renumber(resps[1]['obs']), 'case': case}
   if case['kind'] == 'hist':
     return {'hist': hist.renumber(resps[0]['obs']), 'hist_twin': hist.renumber(resps[1]['obs'])}
   if case['kind'] == 'span':
@@ -1344,6 +1438,16 @@ def _same_exc(a, b, lenient_msg):
 def compare(impl, model):
   if 'shared' in impl or 'arr' in impl:
     return None
+  if 'multi' in impl:
+    case = model['case']
+    d = multi.compare_model(case, impl['multi'], model['multi'], 'clients + server')
+    if d:
+      return d
+    # the model's local side (ordinary Python in Lean) vs ordinary Python, while no cache_result link was met
+    # (and up to a client.shutdown(): the local side of the model has no notion of a worker declared dead)
+    flagged = next((i for i, op in enumerate(case['ops'])
+                    if not hist.plain_op(op) or (op['op'] == 'shutdown' and op['how'] == 'client')), len(case['ops']))
+    return multi.compare_model(case, impl['multi_twin'][:flagged], model['multi_twin'][:flagged], 'ordinary Python')
   if 'hist' in impl:
     return _compare_hist(impl, model)
   if 'span' in impl:
@@ -1544,6 +1648,8 @@ def _failures(case, obs):
 
 
 def oracle(case, obs):
+  if case['kind'] == 'multi':
+    return oracle_multi(case, obs)
   if case['kind'] == 'hist':
     return oracle_hist(case, obs)
   if case['kind'] == 'shared':
@@ -1617,6 +1723,18 @@ def collect(case, obs):
   """Coverage is measured on the case and on the *reference* (local) pass, so that a change of the code under
   test cannot hide a branch from the generator-quality gate; results of the remote pass are histogrammed only."""
   _stat('kind', case['kind'])
+  if 'client_opts' in case:
+    for k, d in multi.options(_sig(), 'CourierClient').items():
+      _stat('branch', f'CourierClient.{k} ' + ('default' if case['client_opts'].get(k, d) == d else 'non-default') +
+            ' (' + case['kind'] + ')')
+  if case['kind'] == 'multi':
+    for b in multi.branches(case, _sig(), obs['multi_twin']):
+      _stat('branch', 'multi: ' + b)
+    for op in case['ops']:
+      _stat('multi op', op['op'] + (' via ' + op['via'] if 'via' in op else ''))
+    if oracle_multi(case, obs):
+      STATS['failed'] = {'1': 1}
+    return
   if case['kind'] == 'hist':
     for b in hist.branches(case['ops'], obs['hist_twin']):
       _stat('branch', 'hist: ' + b)
@@ -1704,6 +1822,8 @@ def collect(case, obs):
 
 def nontrivial(case, obs):
   collect(case, obs)
+  if case['kind'] == 'multi':
+    return len(case['ops']) >= 4 and any('remote' in t for t in obs['multi_twin'])
   if case['kind'] == 'hist':
     return any(b.startswith('re-read after mutation') or b.startswith('next after') or b.startswith('cached link')
                for b in hist.branches(case['ops'], obs['hist_twin']))
@@ -1736,6 +1856,7 @@ def extra(ctx):
           'in flight across the shutdown request: succeeds',
           'cached call with an array argument evaluated remotely twice']
   need += ['hist: ' + b for b in hist.NEED_PLAIN + hist.NEED_FLAGS]
+  need += ['multi: ' + b for b in multi.NEED + multi.need_arms(_sig())]
   missing = [b for b in need if not STATS.get('branch', {}).get(b)]
   for f in ('deadline', 'deadline+not-alive', 'deadline_after', 'app_error', 'die', 'dead'):
     if not STATS.get('fault', {}).get(f):
@@ -1756,6 +1877,14 @@ def finding(case, what):
 # ----------------------------------------------------------------------------- search helpers
 
 def neighbours(case, rng):
+  if case['kind'] == 'multi':
+    for i in range(len(case['ops'])):
+      c = hist.drop_op(case, i)
+      if c is not None and c['ops']:
+        yield c
+    for _ in range(300):
+      yield multi.gen_multi_case(rng, _sig())
+    return
   if case['kind'] == 'hist':
     for i in range(len(case['ops'])):
       c = hist.drop_op(case, i)
@@ -1807,7 +1936,7 @@ def _drop(case, t, i):
 
 
 def shrink(case, fails):
-  if case['kind'] == 'hist':
+  if case['kind'] in ('hist', 'multi'):
     return hist.shrink(case, fails)
   if case['kind'] in ('shared', 'span'):
     return case
